@@ -87,6 +87,23 @@ Theorem C11_zeroed_length_detected : forall crc items k,
 Proof. exact zeroed_length_detected_nth. Qed.
 Print Assumptions C11_zeroed_length_detected.
 
+(** with the repaired loader (D19: a manifest that names a file twice is refused) a files.json entry
+    redirected to ANY other listed shard is detected — no assumption on the checksums, which coincide
+    for many shards of regularly spaced keys — and so is every manifest with a repeated name, whatever
+    the checksums and the files are *)
+Theorem C11_redirect_detected_any : forall crc shards k j, good_shards shards ->
+  (k < length shards)%nat -> (j < length shards)%nat -> k <> j ->
+  let d := stored_dir crc shards in
+  let names' := map (fun x => if x =? N.of_nat k then N.of_nat j else x) (names_of (length shards)) in
+  load_data crc (mkImg (POk 1) (mkDir (POk names') (d_cks d) (d_file d)) empty_dir) = LErr.
+Proof. exact redirect_detected_any. Qed.
+Print Assumptions C11_redirect_detected_any.
+
+Theorem C11_duplicate_names_rejected : forall crc v names cks file optional,
+  has_dup names = true -> load_dir crc v (mkDir (POk names) cks file) optional = LErr.
+Proof. exact duplicate_names_rejected. Qed.
+Print Assumptions C11_duplicate_names_rejected.
+
 (** "never stuck": the shard loader pool (Conc/LoaderPool.v: a feeder, an unbuffered channel, c loader
     goroutines; a loader that hits a read error goes on receiving) *)
 From Coq Require Import List Arith Lia Bool Sorting.Permutation.
